@@ -8,11 +8,60 @@ import (
 	"os"
 	"path/filepath"
 	"sort"
+	"strings"
+
+	"github.com/jf-tech/omniparser/idr"
 
 	"verifharness/vh"
 )
 
 func pickOf(r *vh.Rng, xs ...int) int { return xs[r.Pick(len(xs))] }
+
+// cb prints a byte string as a list of Byte constructors: coqc elaborates these about twice as
+// fast as the string literals of vh.CoqHex, and the Cases files of this property are mostly bytes.
+func cb(b []byte) string {
+	if len(b) == 0 {
+		return "[]"
+	}
+	var sb strings.Builder
+	sb.Grow(len(b)*9 + 2)
+	sb.WriteByte('[')
+	for i, c := range b {
+		if i > 0 {
+			sb.WriteByte(';')
+		}
+		fmt.Fprintf(&sb, "Byte.x%02x", c)
+	}
+	sb.WriteByte(']')
+	return sb.String()
+}
+
+// coqTree is vh.CoqTree with the byte printer above.
+func coqTree(n *idr.Node) string {
+	var sb strings.Builder
+	var walk func(n *idr.Node)
+	walk = func(n *idr.Node) {
+		sb.WriteString("(T " + n.Type.String() + " " + cb([]byte(n.Data)) + " ")
+		switch fs := n.FormatSpecific.(type) {
+		case idr.XMLSpecific:
+			sb.WriteString("(FXml " + cb([]byte(fs.NamespacePrefix)) + " " + cb([]byte(fs.NamespaceURI)) + ")")
+		case idr.JSONType:
+			sb.WriteString("(FJson " + vh.CoqN(int(fs)) + ")")
+		default:
+			sb.WriteString("FNone")
+		}
+		sb.WriteString(" [")
+		for c := n.FirstChild; c != nil; c = c.NextSibling {
+			if c != n.FirstChild {
+				sb.WriteString("; ")
+			}
+			walk(c)
+		}
+		sb.WriteString("])")
+	}
+	walk(n)
+	return sb.String()
+}
 
 // corpusCase is one file of replays/corpus/C08: a minimal input kept from a past defect.
 // expect = "pass" (regression of a repaired defect) or "known-finding" (still expected to fail;
@@ -103,7 +152,7 @@ func main() {
 		}
 	}
 
-	total := o.Count(3000, 300000)
+	total := o.Count(3000, 60000)
 	for c := 0; c < total; c++ {
 		if c%2 == 0 {
 			genJSONCase(r, sum, cw)
